@@ -245,6 +245,8 @@ class Strict:
             r = self.fk[(a, b)]["ref"]
             if a not in self.tables or r not in self.tables:
                 return "ALTER TABLE t%d ADD fk %d: table t%d or t%d missing" % (a, b, a, r)
+            if (a, b) in self.fks:
+                return "ALTER TABLE t%d ADD fk %d: the constraint already exists" % (a, b)
             self.fks.add((a, b))
             return None
         if k == "DC":
@@ -334,34 +336,57 @@ def exc_kind(e):
 
 
 def run_script_mock(spec, dialect):
-    """create_all/drop_all script on a mock engine; returns list of (tokens, exception-kind|None)"""
+    """create_all/drop_all script on a mock engine; returns list of (tokens, exception-kind|None).
+
+    checkfirst: MockConnection forces checkfirst=False, so for a checkfirst step the
+    SchemaGenerator / SchemaDropper visitor is invoked directly on the mock connection, with the
+    dialect's has_table / has_multi_table / has_index answering from the tables the emitted DDL has
+    created so far (the catalog of the simulated backend)."""
     from sqlalchemy import create_mock_engine
+    from sqlalchemy.sql import ddl as sqlddl
 
     m, objs = build_metadata(spec["tables"])
     out = []
+    present = set()
 
     def ex(sql, *a, **k):
         out.append(str(sql.compile(dialect=eng.dialect)))
 
     eng = create_mock_engine(dialect + "://", ex)
+    d = eng.dialect
+    d.has_table = lambda conn, name, schema=None, **kw: name in present
+    d.has_multi_table = lambda conn, names, schema=None, **kw: {(schema, n): (n in present) for n in names}
+    d.has_index = lambda conn, tname, iname, schema=None, **kw: False
+    d.has_sequence = lambda conn, name, schema=None, **kw: False
     res = []
     with warnings.catch_warnings():
         warnings.simplefilter("ignore")
         for kind, cf, sub in spec["steps"]:
             del out[:]
             if kind == "X":  # out-of-band DROP TABLE .. CASCADE: nothing goes through SQLAlchemy
+                present.discard("t%d" % sub[0])
                 res.append((["X"], None))
                 continue
             tbls = None if sub is None else [objs[i] for i in sub]
             err = None
             try:
-                if kind == "C":
-                    m.create_all(eng, tables=tbls, checkfirst=False)
+                if not cf:
+                    if kind == "C":
+                        m.create_all(eng, tables=tbls, checkfirst=False)
+                    else:
+                        m.drop_all(eng, tables=tbls, checkfirst=False)
                 else:
-                    m.drop_all(eng, tables=tbls, checkfirst=False)
+                    cls = sqlddl.SchemaGenerator if kind == "C" else sqlddl.SchemaDropper
+                    cls(d, eng, checkfirst=True, tables=tbls).traverse_single(m)
             except Exception as e:  # classified below
                 err = exc_kind(e)
-            res.append(([tokenize(s) for s in out], err))
+            toks = [tokenize(s) for s in out]
+            for t in toks:
+                if t.startswith("CT"):
+                    present.add("t" + t[2:].split("[")[0])
+                elif t.startswith("DT"):
+                    present.discard("t" + t[2:])
+            res.append((toks, err))
     return res
 
 
@@ -446,6 +471,9 @@ def oracle_mock(spec, res, dialect):
     for n, ((kind, cf, sub), (toks, err)) in enumerate(zip(spec["steps"], res)):
         cand = [t["id"] for t in tables] if sub is None else list(sub)
         where = "%s step %d (%s %s)" % (dialect, n, kind, sub)
+        if kind != "X" and cf:
+            # checkfirst: tables already present are skipped by create_all, absent ones by drop_all
+            cand = [i for i in cand if (i not in st.tables) == (kind == "C")]
         if kind == "X":
             x = sub[0]
             st.tables.discard(x)
@@ -773,35 +801,63 @@ def closed_subset(rng, tables, present, want_create):
 
 
 def gen_steps_strict(rng, tables):
-    """script for the ALTER dialects (checkfirst impossible on a mock engine)"""
+    """script for the ALTER dialects: histories of create_all / drop_all with tables= subsets, with and
+    without checkfirst (pre-existing tables), and out-of-band drops; every step is legal on a strict backend"""
     ids = [t["id"] for t in tables]
     r = rng.random()
-    if r < 0.45:
+    if r < 0.3:
         return [("C", 0, None), ("D", 0, None)]
-    if r < 0.6:
+    if r < 0.4:
         return [("C", 0, None), ("D", 0, None), ("C", 0, None), ("D", 0, None)]
-    if r < 0.72:
+    if r < 0.5:
+        # create_all twice (checkfirst): the second one must be a no-op; then drop twice
+        return [("C", rng.choice([0, 1]), None), ("C", 1, None), ("D", 1, None), ("D", 1, None)]
+    if r < 0.6:
+        # part of the schema exists already (created earlier / a table was added to the MetaData later)
+        sub = closed_subset(rng, tables, set(), True)
+        return [("C", rng.choice([0, 1]), sub), ("C", 1, None), ("D", rng.choice([0, 1]), None)]
+    if r < 0.68:
+        # partial drop, then create_all restores, then everything goes
+        sub = closed_subset(rng, tables, set(ids), False)
+        return [("C", 0, None), ("D", rng.choice([0, 1]), sub), ("C", 1, None), ("D", 1, None)]
+    if r < 0.78:
         # somebody drops one table by hand (DROP TABLE .. CASCADE) and create_all restores it
         x = rng.choice(ids)
-        return [("C", 0, None), ("X", 0, [x]), ("C", 0, [x])]
+        return [("C", 0, None), ("X", 0, [x]), rng.choice([("C", 0, [x]), ("C", 1, None), ("C", 1, [x])])]
     steps, present = [], set()
     for _ in range(rng.randint(2, 5)):
+        cf = 1 if rng.random() < 0.5 else 0
         if present and rng.random() < 0.45:
+            if cf and rng.random() < 0.4:
+                steps.append(("D", 1, None))
+                present = set()
+                continue
             sub = closed_subset(rng, tables, present, False)
             if sub is None:
                 continue
-            if set(sub) == present and rng.random() < 0.5:
-                sub_arg = None if present == set(ids) else sub
-            else:
-                sub_arg = sub
-            steps.append(("D", 0, sub_arg))
+            arg = list(sub)
+            if cf:
+                arg += [i for i in ids if i not in present and rng.random() < 0.3]  # absent ones are skipped
+                rng.shuffle(arg)
+            elif set(sub) == present == set(ids) and rng.random() < 0.5:
+                arg = None
+            steps.append(("D", cf, arg))
             present -= set(sub)
         else:
+            if cf and rng.random() < 0.4:
+                steps.append(("C", 1, None))
+                present = set(ids)
+                continue
             sub = closed_subset(rng, tables, present, True)
             if sub is None:
                 continue
-            full = set(sub) == set(ids) and not present
-            steps.append(("C", 0, None if full and rng.random() < 0.5 else sub))
+            arg = list(sub)
+            if cf:
+                arg += [i for i in present if rng.random() < 0.3]  # present ones are skipped
+                rng.shuffle(arg)
+            elif set(sub) == set(ids) and not present and rng.random() < 0.5:
+                arg = None
+            steps.append(("C", cf, arg))
             present |= set(sub)
     return steps or [("C", 0, None)]
 
@@ -979,6 +1035,8 @@ def run(ctx, deep=False):
         ctx.count("small-scope")
         dialects = ALTER_DIALECTS if thorough else [ALTER_DIALECTS[n_small % len(ALTER_DIALECTS)]]
         steps = [("C", 0, None), ("D", 0, None)]
+        if n_small % 3 == 1:
+            steps = [("C", 0, None), ("C", 1, None), ("D", 1, None), ("D", 1, None)]
         if n_small % 3 == 0:
             sub = closed_subset(rng, tables, set(), True)
             rest = [t["id"] for t in tables if t["id"] not in sub]
